@@ -103,6 +103,18 @@ def _coverage(chk, ctx) -> None:
     chk.ob('C12.coverage', 'State.can_win_now:wins', true_ok and false_ok, fi.loc,
            'a hand can win when it exists and no eligible shown hand is strictly better (ties count); otherwise it cannot',
            got=T.show(got)[:300] if got else None, want=T.show(win)[:300])
+    # nothing but a win leaves the scan early: a loss on one board / hand type / pot says nothing about the others
+    early = []
+    for n in walk_no_nested(fi.node):
+        if isinstance(n, ast.For):
+            for st in n.body:
+                for x in ast.walk(st):
+                    if isinstance(x, ast.Break):
+                        early.append(x)
+                    if isinstance(x, ast.Return) and not (isinstance(x.value, ast.Constant) and x.value.value is True):
+                        early.append(x)
+    chk.ob('C12.coverage', 'State.can_win_now:exhaustive', not early, ctx.loc(fi, early[0]) if early else fi.loc,
+           'the scan is left early only with a win: the only way to answer "cannot win" is to have looked at every board, hand type and pot')
     # sibling: same best-hand expression as push_chips
     pc = ctx.sfi('push_chips')
     sib = None
@@ -117,7 +129,7 @@ def _coverage(chk, ctx) -> None:
     chk.ob('C12.sibling', 'State.can_win_now~push_chips', ok, fi.loc,
            "can_win_now and push_chips select the best hand the same way: maximum over the pot's eligible players of the shown hands",
            got=T.show(sib)[:200] if sib else None, want=T.show(best)[:200])
-    chk.floor('C12.coverage', 2)
+    chk.floor('C12.coverage', 3)
 
 
 def _tournament(chk, ctx) -> None:
@@ -125,11 +137,11 @@ def _tournament(chk, ctx) -> None:
     fi = ctx.sfi(name)
     tour = T.spec('self.mode == Mode.TOURNAMENT', boolean=True)
     ok_allin = ok_final = False
+    from ..phases import conjuncts
     for exc, last, cs, p in raise_guards(ctx, name):
         if exc != 'ValueError':
             continue
         flat = set()
-        from ..phases import conjuncts
         for c in cs:
             flat |= set(conjuncts(c))
         if tour in flat:
@@ -137,6 +149,26 @@ def _tournament(chk, ctx) -> None:
                 ok_allin = True
             elif T.spec('self.street is self.streets[-1]', boolean=True) in flat:
                 ok_final = True
+    # what is counted is what the player tables (second value the verifier returns), not the completed hand
+    rets = [n for n in walk_no_nested(fi.node) if isinstance(n, ast.Return) and isinstance(n.value, ast.Tuple) and len(n.value.elts) >= 2
+            and isinstance(n.value.elts[1], ast.Name)]
+    tabled = rets[0].value.elts[1].id if rets else None
+    counted_ok = False
+    n_counted = 0
+    for exc, last, cs, p in raise_guards(ctx, name):
+        flat = set()
+        for c in cs:
+            flat |= set(conjuncts(c))
+        if tour not in flat or tabled is None:
+            continue
+        want_c = T.spec('sum(map(bool, X)) < len(self.hole_cards[P])', {'X': unversion(p.env.get(tabled, ('name', tabled))), 'P': unversion(p.env.get('player_index', ('name', 'player_index')))}, boolean=True)
+        if any(c[0] == 'lt' and c[1][:2] == ('call', 'sum') for c in flat):
+            n_counted += 1
+            counted_ok = want_c in flat
+            if not counted_ok:
+                break
+    chk.ob('C12.tournament', f'State.{name}:counted', counted_ok and n_counted > 0, fi.loc,
+           'the show-all rule counts the known cards among the cards the player actually tables')
     chk.ob('C12.tournament', f'State.{name}', ok_allin and ok_final, fi.loc,
            'in tournament mode a player who shows must show all his hole cards when the hand is all-in and at the final showdown',
            got=f'all-in rule: {ok_allin}; final-showdown rule: {ok_final}')
